@@ -124,6 +124,7 @@ func main() {
 	full := "abcdefghijklmnopqrstuvwxyzABCDEFGHIJKLMNOPQRSTUVWXYZ0123456789#- "
 	spaces := []space{{full, 4}}
 	if *tier == "thorough" {
+		spaces[0].maxLen = 5 // 65^5 = 1.16e9 strings
 		spaces = append(spaces,
 			space{"abceghzABCEGHZ0123789#- \n\x00\xc3", 5},
 			space{"CEHc#-0289 \n", 7},
